@@ -579,7 +579,13 @@ def dict_build(case):
                 ns[it[1]] = hms[m].globalVar(it[2], default=0)
             else:
                 Key = type("Key", (Structure,), {f"k{i}": Member(f) for i, f in enumerate(it[2])})
-                Value = type("Value", (Structure,), {f"v{i}": Member(f) for i, f in enumerate(it[3])})
+                # every second Dict with two or more value members: the value structure EXTENDS a base structure holding the first
+                # member (same members, same order - the layout must be the same as that of the flat structure)
+                if len(it[3]) >= 2 and len(it[1]) % 2 == 0:
+                    VBase = type("VBase", (Structure,), {"v0": Member(it[3][0])})
+                    Value = type("Value", (VBase,), {f"v{i}": Member(f) for i, f in enumerate(it[3]) if i >= 1})
+                else:
+                    Value = type("Value", (Structure,), {f"v{i}": Member(f) for i, f in enumerate(it[3])})
                 structs[it[1]] = (Key, Value)
                 ns[it[1]] = Dict(key=Key, value=Value, size=4)
         P = type("P", (EBPF,), ns)
